@@ -1,4 +1,5 @@
 """C12 implementation ops: pyndl.activation.activation on all three paths, and the learner/activation link"""
+import os
 from collections import defaultdict
 from fractions import Fraction
 
@@ -99,8 +100,27 @@ def op_step_delta(t):
         da = xr.DataArray(np.array([[W[o][c] for c in names_c] for o in names_o], dtype=np.float64),
                           [('outcomes', names_o), ('cues', names_c)])
         act = activation.activation([(cues, outcomes)], da, remove_duplicates=policy)
-        W2 = ndl.dict_ndl([(cues, outcomes)], fl(t['alpha']), (fl(t['beta1']), fl(t['beta2'])), fl(t['lambda']),
-                          weights=W, remove_duplicates=policy)
+        learner = t.get('learner', 'dict_ndl')
+        if learner == 'dict_ndl':
+            W2 = ndl.dict_ndl([(cues, outcomes)], fl(t['alpha']), (fl(t['beta1']), fl(t['beta2'])), fl(t['lambda']),
+                              weights=W, remove_duplicates=policy)
+        else:
+            # the parallel learner continues from the SAME labelled matrix on a one-event file (an empty
+            # outcome field would be the outcome '': the generator gives this learner at least one outcome)
+            import tempfile, shutil
+            d = tempfile.mkdtemp(prefix='step-', dir=impl.WORK) if hasattr(impl, 'WORK') else tempfile.mkdtemp(prefix='step-')
+            try:
+                path = os.path.join(d, 'event.tab.gz')
+                impl.write_event_file(path, [(cues, outcomes)])
+                da2 = ndl.ndl(path, fl(t['alpha']), (fl(t['beta1']), fl(t['beta2'])), fl(t['lambda']),
+                              method='threading' if learner == 'ndl_threading' else 'openmp', weights=da,
+                              n_jobs=int(t.get('n_jobs', 2)), n_outcomes_per_job=int(t.get('per_job', 10)),
+                              remove_duplicates=policy)
+            finally:
+                shutil.rmtree(d, ignore_errors=True)
+            oo = [str(x) for x in da2.coords['outcomes'].values.tolist()]
+            cc = [str(x) for x in da2.coords['cues'].values.tolist()]
+            W2 = {o: {c: float(da2.values[oo.index(o), cc.index(c)]) for c in names_c} for o in names_o}
         a, b1, b2, lam = (Fraction(t[k]) for k in ('alpha', 'beta1', 'beta2', 'lambda'))
         eff = cues if t['policy'] == 'keep' else list(dict.fromkeys(cues))
         bad = []
